@@ -212,6 +212,30 @@ def issues_from_validation(ctx, res, which, label):
     return issues
 
 
+def issues_from_leaks(ctx, trace, which):
+    """End events whose live count is not zero: allocations made inside
+    libvna survived vnacal_free (bears on C03 only)."""
+    issues = []
+    seen = set()
+    for start, lines in vlib.split_episodes(trace):
+        if not lines or '"e":"End"' not in lines[-1]:
+            continue
+        m = re.search(r'"live":(-?\d+)', lines[-1])
+        if not m or int(m.group(1)) == 0:
+            continue
+        t, r, c, form, nstd = _context(lines, len(lines) - 1)
+        sig = "CalFlow:End:live:%s:%dx%d" % (t, r, c)
+        if sig in seen:
+            continue
+        seen.add(sig)
+        cm = common.CASE_RE.search(lines[0])
+        issues.append(vlib.Issue(
+            {"C03"}, sig, "%s allocation(s) made inside libvna still live "
+            "after vnacal_free (case %s)" % (m.group(1),
+                                             cm.group(1) if cm else "?")))
+    return issues
+
+
 def issues_from_crashes(ctx, crashes, which, label, script=None):
     issues = []
     prop = PROP_OF[which]
@@ -289,6 +313,7 @@ def run(ctx, exe, which, tier, seed, params=None, nshards=None):
                                 ctx.work, max_failures=60)
     ctx.machinery_errors += res["errors"]
     issues += issues_from_validation(ctx, res, which, which + " table")
+    issues += issues_from_leaks(ctx, tr, which)
     stats["events"] = res["events"]
     stats["episodes"] = res["episodes"]
     stats["tlc_generated"] = res["generated"]
